@@ -22,6 +22,7 @@ import EPV.Gen.SedovFuncsO2
 import EPV.Gen.SedovFuncsO3
 import EPV.Spec.SedovODE
 import EPV.Tactics
+import EPV.Lemmas.Bridge.SemiTac
 
 set_option linter.all false
 set_option maxRecDepth 100000
@@ -108,22 +109,37 @@ structure O3Consts (p : SedovFuncsO3.P) (γ k ω : ℝ) : Prop where
 
 /-! ### Tie to the traced constructor (generated model SedovConsts) -/
 
-/-- pins: the decisions of the traced constructor (same trace as SedovInit) -/
-theorem consts_c0 (p : SedovConsts.P) : SedovConsts.c0 p ↔ p.geometry = 1 := Iff.rfl
-theorem consts_c2 (p : SedovConsts.P) : SedovConsts.c2 p ↔ p.geometry = 2 := Iff.rfl
-theorem consts_c3 (p : SedovConsts.P) : SedovConsts.c3 p ↔ p.geometry = 3 := Iff.rfl
-theorem consts_c1 (p : SedovConsts.P) : SedovConsts.c1 p ↔ p.gamma < 1 := Iff.rfl
-theorem consts_c4 (p : SedovConsts.P) : SedovConsts.c4 p ↔ p.rho0 < 0 := Iff.rfl
-theorem consts_c5 (p : SedovConsts.P) : SedovConsts.c5 p ↔ p.eblast < 0 := Iff.rfl
-theorem consts_c6 (p : SedovConsts.P) : SedovConsts.c6 p ↔ p.omega < 0 := Iff.rfl
-theorem consts_c7 (p : SedovConsts.P) : SedovConsts.c7 p ↔ p.geometry ≤ p.omega := Iff.rfl
+/-- pins: the decisions of the traced constructor (same trace as SedovInit).  The NUMBERING is part of these
+statements (a reordering of the constructor's checks renumbers the conditions and falsifies them); the form of
+each test is not: the proofs compare up to normalisation (`epv_semi_bridge_cond`). -/
+theorem consts_c0 (p : SedovConsts.P) : SedovConsts.c0 p ↔ p.geometry = 1 := by epv_semi_bridge_cond
+theorem consts_c2 (p : SedovConsts.P) : SedovConsts.c2 p ↔ p.geometry = 2 := by epv_semi_bridge_cond
+theorem consts_c3 (p : SedovConsts.P) : SedovConsts.c3 p ↔ p.geometry = 3 := by epv_semi_bridge_cond
+theorem consts_c1 (p : SedovConsts.P) : SedovConsts.c1 p ↔ p.gamma < 1 := by epv_semi_bridge_cond
+theorem consts_c4 (p : SedovConsts.P) : SedovConsts.c4 p ↔ p.rho0 < 0 := by epv_semi_bridge_cond
+theorem consts_c5 (p : SedovConsts.P) : SedovConsts.c5 p ↔ p.eblast < 0 := by epv_semi_bridge_cond
+theorem consts_c6 (p : SedovConsts.P) : SedovConsts.c6 p ↔ p.omega < 0 := by epv_semi_bridge_cond
+theorem consts_c7 (p : SedovConsts.P) : SedovConsts.c7 p ↔ p.geometry ≤ p.omega := by epv_semi_bridge_cond
 /-- `abs(v2 - vstar) <= osmall`: singular solution type -/
 theorem consts_c8 (p : SedovConsts.P) : SedovConsts.c8 p ↔
-    |4 / ((p.geometry + 2 - p.omega) * (p.gamma + 1)) - 2 / ((p.gamma - 1) * p.geometry + 2)| ≤ 1 / 10000 := Iff.rfl
+    |4 / ((p.geometry + 2 - p.omega) * (p.gamma + 1)) - 2 / ((p.gamma - 1) * p.geometry + 2)| ≤ 1 / 10000 := by
+  epv_semi_bridge_cond
 /-- `abs(denom2) <= osmall`: special singularity omega2 -/
-theorem consts_c9 (p : SedovConsts.P) : SedovConsts.c9 p ↔ |K.denom2 p.gamma p.geometry p.omega| ≤ 1 / 10000 := Iff.rfl
+theorem consts_c9 (p : SedovConsts.P) : SedovConsts.c9 p ↔ |K.denom2 p.gamma p.geometry p.omega| ≤ 1 / 10000 := by
+  first
+  | exact Iff.rfl
+  | (simp only [epv_cond, K.denom2] <;>
+     first
+     | (ring_nf; done)
+     | (constructor <;> intro h <;> ring_nf at h ⊢ <;> exact h))
 /-- `abs(denom3) <= osmall` (tested only when the omega2 test failed): special singularity omega3 -/
-theorem consts_c12 (p : SedovConsts.P) : SedovConsts.c12 p ↔ |K.denom3 p.gamma p.geometry p.omega| ≤ 1 / 10000 := Iff.rfl
+theorem consts_c12 (p : SedovConsts.P) : SedovConsts.c12 p ↔ |K.denom3 p.gamma p.geometry p.omega| ≤ 1 / 10000 := by
+  first
+  | exact Iff.rfl
+  | (simp only [epv_cond, K.denom3] <;>
+     first
+     | (ring_nf; done)
+     | (constructor <;> intro h <;> ring_nf at h ⊢ <;> exact h))
 
 /-- what the constructor's six checks let through (sedov.py:63-77) -/
 structure AcceptedC (p : SedovConsts.P) : Prop where
@@ -135,27 +151,23 @@ structure AcceptedC (p : SedovConsts.P) : Prop where
   omegak : ¬ p.geometry ≤ p.omega
 
 set_option hygiene false in
-/-- prune the traced tree by the acceptance facts and the geometry, split what is left (solution
-type) and run `tac` on every remaining leaf -/
-macro "consts_cases " A:ident p:ident " on " defs:Lean.Parser.Tactic.simpLemma,* " with " tac:tacticSeq : tactic =>
-  `(tactic| (have h1 : ¬ SedovConsts.c1 $p := (AcceptedC.gamma $A)
-             have h4 : ¬ SedovConsts.c4 $p := (AcceptedC.rho0 $A)
-             have h5 : ¬ SedovConsts.c5 $p := (AcceptedC.eblast $A)
-             have h6 : ¬ SedovConsts.c6 $p := (AcceptedC.omega0 $A)
-             have h7 : ¬ SedovConsts.c7 $p := (AcceptedC.omegak $A)
-             rcases (AcceptedC.geo $A) with hg | hg | hg
-             · have hc0 : SedovConsts.c0 $p := hg
-               simp only [$defs,*, hc0, h1, h4, h5, h6, h7, if_true, if_false]
-               split_ifs <;> ($tac)
-             · have hc0 : ¬ SedovConsts.c0 $p := by rw [consts_c0, hg]; norm_num
-               have hc2 : SedovConsts.c2 $p := hg
-               simp only [$defs,*, hc0, hc2, h1, h4, h5, h6, h7, if_true, if_false]
-               split_ifs <;> ($tac)
-             · have hc0 : ¬ SedovConsts.c0 $p := by rw [consts_c0, hg]; norm_num
-               have hc2 : ¬ SedovConsts.c2 $p := by rw [consts_c2, hg]; norm_num
-               have hc3 : SedovConsts.c3 $p := hg
-               simp only [$defs,*, hc0, hc2, hc3, h1, h4, h5, h6, h7, if_true, if_false]
-               split_ifs <;> ($tac)))
+/-- case split on the geometry; in each case decide, once, every condition along the spine of the traced tree that the
+acceptance facts decide (`epv_semi_facts`: whatever its number, whatever the order of the constructor's checks) and
+leave the facts in the context.  `hg : p.geometry = 1 | 2 | 3` is in scope afterwards. -/
+macro "consts_geo " A:ident p:ident : tactic =>
+  `(tactic| (have hAgamma := (AcceptedC.gamma $A)
+             have hArho0 := (AcceptedC.rho0 $A)
+             have hAeblast := (AcceptedC.eblast $A)
+             have hAomega0 := (AcceptedC.omega0 $A)
+             have hAomegak := (AcceptedC.omegak $A)
+             rcases (AcceptedC.geo $A) with hg | hg | hg <;> epv_semi_facts (SedovConsts.outcome $p)))
+
+/-- after `consts_geo`: unfold the tree-level definitions, prune the tree by the facts in the context, split what is
+left (solution type) and run `tac` on every remaining leaf -/
+macro "consts_leaves" " on " defs:Lean.Parser.Tactic.simpLemma,* " with " tac:tacticSeq : tactic =>
+  `(tactic| (simp only [$defs,*, if_true, if_false]
+             epv_semi_prune
+             (try split_ifs) <;> ($tac)))
 
 /-- the stub the real code hands to `sedov_funcs_standard`: the object's own attributes, as the
 parameter record of the generated model SedovFuncs -/
@@ -184,54 +196,64 @@ theorem consts_type_trichotomy (p : SedovConsts.P) :
   by_cases h8 : SedovConsts.c8 p
   · exact Or.inl h8
   · right
-    simp only [epv_cond, not_le] at *
-    rcases lt_abs.mp h8 with hh | hh
-    · right; linarith
-    · left; linarith
+    by_cases h10 : SedovConsts.c10 p
+    · exact Or.inl h10
+    · right
+      simp only [epv_cond] at *
+      epv_semi_abs_lin
 
 /-- special_singularity none: every accepting path of the traced constructor returns the constants `K.*` -/
 theorem consts_none (q : SedovConsts.P) (A : AcceptedC q) (h9 : ¬ SedovConsts.c9 q) (h12 : ¬ SedovConsts.c12 q) :
     StdConsts (stdFuncs q) q.gamma q.geometry q.omega := by
   have htri := consts_type_trichotomy q
-  refine ⟨rfl, rfl, ?_, ?_, ?_, ?_, ?_, ?_, ?_, ?_, ?_, ?_, ?_, ?_, ?_, ?_⟩ <;>
-  · simp only [stdFuncs]
-    consts_cases A q on SedovConsts.xg2, SedovConsts.gamp1, SedovConsts.gpogm, SedovConsts.a0, SedovConsts.a1,
+  consts_geo A q
+  all_goals
+    refine ⟨rfl, rfl, ?_, ?_, ?_, ?_, ?_, ?_, ?_, ?_, ?_, ?_, ?_, ?_, ?_, ?_⟩ <;>
+    · simp only [stdFuncs]
+      consts_leaves on SedovConsts.xg2, SedovConsts.gamp1, SedovConsts.gpogm, SedovConsts.a0, SedovConsts.a1,
         SedovConsts.a2, SedovConsts.a3, SedovConsts.a4, SedovConsts.a5, SedovConsts.a_val, SedovConsts.b_val,
         SedovConsts.c_val, SedovConsts.d_val, SedovConsts.e_val, h9, h12 with
-      first
-      | (simp only [epv_leaf, K.a0, K.a1, K.a2, K.a3, K.a4, K.a5, K.a_val, K.b_val, K.c_val, K.d_val, K.e_val]; done)
-      | (exfalso; tauto)
+        first
+        | (simp only [epv_leaf, K.a0, K.a1, K.a2, K.a3, K.a4, K.a5, K.a_val, K.b_val, K.c_val, K.d_val, K.e_val]; done)
+        | (exfalso; rcases htri with h | h | h <;> contradiction)
+        | (simp only [epv_leaf, K.a0, K.a1, K.a2, K.a3, K.a4, K.a5, K.a_val, K.b_val, K.c_val, K.d_val, K.e_val] <;> epv_semi_eq)
 
 /-- special_singularity omega2 -/
 theorem consts_omega2 (q : SedovConsts.P) (A : AcceptedC q) (h9 : SedovConsts.c9 q) :
     O2Consts (o2Funcs q) q.gamma q.geometry q.omega := by
   have htri := consts_type_trichotomy q
-  refine ⟨rfl, rfl, rfl, ?_, ?_, ?_, ?_, ?_, ?_, ?_, ?_, ?_, ?_⟩ <;>
-  · simp only [o2Funcs]
-    consts_cases A q on SedovConsts.xg2, SedovConsts.gamm1, SedovConsts.gamp1, SedovConsts.gpogm, SedovConsts.a0,
+  consts_geo A q
+  all_goals
+    refine ⟨rfl, rfl, rfl, ?_, ?_, ?_, ?_, ?_, ?_, ?_, ?_, ?_, ?_⟩ <;>
+    · simp only [o2Funcs]
+      consts_leaves on SedovConsts.xg2, SedovConsts.gamm1, SedovConsts.gamp1, SedovConsts.gpogm, SedovConsts.a0,
         SedovConsts.a5, SedovConsts.a_val, SedovConsts.b_val, SedovConsts.c_val, SedovConsts.e_val, h9 with
-      first
-      | (simp only [epv_leaf, K.a0, K.a5, K.a_val, K.b_val, K.c_val, K.e_val]; done)
-      | (exfalso; tauto)
+        first
+        | (simp only [epv_leaf, K.a0, K.a5, K.a_val, K.b_val, K.c_val, K.e_val]; done)
+        | (exfalso; rcases htri with h | h | h <;> contradiction)
+        | (simp only [epv_leaf, K.a0, K.a5, K.a_val, K.b_val, K.c_val, K.e_val] <;> epv_semi_eq)
 
 /-- special_singularity omega3 -/
 theorem consts_omega3 (q : SedovConsts.P) (A : AcceptedC q) (h9 : ¬ SedovConsts.c9 q) (h12 : SedovConsts.c12 q) :
     O3Consts (o3Funcs q) q.gamma q.geometry q.omega := by
   have htri := consts_type_trichotomy q
-  refine ⟨rfl, rfl, rfl, ?_, ?_, ?_, ?_, ?_, ?_, ?_, ?_, ?_, ?_, ?_, ?_⟩ <;>
-  · simp only [o3Funcs]
-    consts_cases A q on SedovConsts.xg2, SedovConsts.gamm1, SedovConsts.gamp1, SedovConsts.gpogm, SedovConsts.a0,
+  consts_geo A q
+  all_goals
+    refine ⟨rfl, rfl, rfl, ?_, ?_, ?_, ?_, ?_, ?_, ?_, ?_, ?_, ?_, ?_, ?_⟩ <;>
+    · simp only [o3Funcs]
+      consts_leaves on SedovConsts.xg2, SedovConsts.gamm1, SedovConsts.gamp1, SedovConsts.gpogm, SedovConsts.a0,
         SedovConsts.a1, SedovConsts.a2, SedovConsts.a3, SedovConsts.a_val, SedovConsts.b_val, SedovConsts.c_val,
         SedovConsts.e_val, h9, h12 with
-      first
-      | (simp only [epv_leaf, K.a0, K.a1, K.a2, K.a3, K.a_val, K.b_val, K.c_val, K.e_val]; done)
-      | (exfalso; tauto)
+        first
+        | (simp only [epv_leaf, K.a0, K.a1, K.a2, K.a3, K.a_val, K.b_val, K.c_val, K.e_val]; done)
+        | (exfalso; rcases htri with h | h | h <;> contradiction)
+        | (simp only [epv_leaf, K.a0, K.a1, K.a2, K.a3, K.a_val, K.b_val, K.c_val, K.e_val] <;> epv_semi_eq)
 
 /-- the end points `__init__` computes (generated model SedovEnds) are the ones of the specification -/
 theorem ends_eq (p : SedovEnds.P) :
     SedovEnds.v0 p = v0 p.gamma p.geometry p.omega ∧ SedovEnds.v2 p = v2 p.gamma p.geometry p.omega ∧
     SedovEnds.vstar p = vstar p.gamma p.geometry ∧ SedovEnds.vv p = vv p.geometry p.omega := by
-  simp only [epv_tree, epv_leaf, v0, v2, vstar, vv, and_self]
+  simp only [epv_tree, epv_leaf, v0, v2, vstar, vv] <;> epv_semi_conj
 
 end
 
